@@ -325,6 +325,44 @@ def attrs_equal(ctx, oracle, a, b, where, data_equal=True, same_class=True):
             ctx.violation(oracle, f"{where}: data changed", None, dict(feats, what="data"))
 
 
+def wl_meta_kinds(ctx, idx, rng):
+    """meta given as anything dict() accepts (mappings that are not dicts, pair lists): stored as a plain dict or refused, never verbatim."""
+    import collections
+    import types
+    clsname = gen.CLASS_NAMES[idx % 6]
+    base = {"a": 1, "b": [1, 2]}
+    kinds = [("MappingProxyType", types.MappingProxyType(dict(base))), ("ChainMap", collections.ChainMap(dict(base), {"c": 3})),
+             ("UserDict", collections.UserDict(base)), ("OrderedDict", collections.OrderedDict(base)), ("pairs", list(base.items())),
+             ("empty_dict", {}), ("defaultdict", collections.defaultdict(list, base)), ("Counter", collections.Counter("aab"))]
+    kname, meta = kinds[(idx // 6) % len(kinds)]
+    how = (idx // 48) % 2
+    o = "meta_contract"
+    if how == 0:
+        sig, exc = ctx.call(o, lambda: gen.make_signal(rng, clsname, 3, meta=meta)[0], expect="any", where=f"{clsname}(meta={kname})")
+    else:
+        sig0, _ = gen.make_signal(rng, clsname, 3, meta=None)
+
+        def assign():
+            sig0.meta = meta
+            return sig0
+        sig, exc = ctx.call(o, assign, expect="any", where=f"{clsname}.meta = {kname}")
+    ctx.count("oracle[meta_contract]")
+    ctx.describe_case({"cls": clsname, "meta_kind": kname, "how": ["constructor", "assignment"][how]})
+    if exc is not None:
+        if not isinstance(exc, ValueError):
+            ctx.violation(o, f"meta={kname} raised {type(exc).__name__}, expected ValueError or acceptance as a dict", None,
+                          {"what": "exc_type", "kind": kname})
+        return
+    report(ctx, o, sig, f"meta={kname}", at_creation=False)
+    with probes.quiet():
+        if sig.meta is not None and dict(sig.meta) != dict(meta):
+            ctx.violation(o, f"meta={kname}: contents changed", None, {"what": "contents", "kind": kname})
+        # derived signals carry a dict too
+        d = sig[0:2]
+    report(ctx, o, d, f"slice of a signal built with meta={kname}", at_creation=False)
+    ctx.bucket("meta_kind", clsname, kname, how)
+
+
 def wl_copies(ctx, idx, rng):
     clsname = gen.CLASS_NAMES[idx % 6]
     use_dask = (idx // 6) % 3 == 1
@@ -456,6 +494,7 @@ def workloads(ctx):
         ("negative", 288 if q else 5760, wl_negative),
         ("bad_data", 60 if q else 1200, wl_bad_data),
         ("copies", 180 if q else 7200, wl_copies),
+        ("meta_kinds", 96 if q else 960, wl_meta_kinds),
         ("failpoints", 24 if q else 240, wl_failpoints),
     ]
 
